@@ -4,6 +4,8 @@ import (
 	"fmt"
 	"regexp"
 	"strings"
+	"sync"
+	"syscall"
 	"testing"
 	"time"
 
@@ -365,6 +367,83 @@ func runC12(t *testing.T, planAny any, res *simnet.Result) {
 			}
 		}
 	out:
+		// ---- the rule list is replaced (a reload) while a packet is half-way through it.  Old and new list decide
+		// this packet the same way (reject), only their order differs, so whatever list the packet is judged by, it
+		// is rejected - unless it is judged by a mixture of the two.
+		if len(res.Violations) == 0 {
+			for _, id := range c12Nodes {
+				_ = m.Nodes[id].Net().AddFirewallRules(nil, true)
+			}
+			time.Sleep(100 * time.Millisecond)
+			for _, s := range socks { // forget what the first phase left behind
+				for len(s.got) > 0 {
+					<-s.got
+				}
+				for more := true; more; {
+					select {
+					case <-s.unr:
+						simnet.Quiesce()
+					default:
+						more = false
+					}
+				}
+			}
+			dstNode := c12Nodes[int(simnet.H(res.Seed, "reload-node")%2)+1]
+			parse := func(d netceptor.FirewallRuleData) netceptor.FirewallRuleFunc {
+				fns, err := netceptor.ParseFirewallRules([]netceptor.FirewallRuleData{d})
+				if err != nil || len(fns) != 1 {
+					return func(*netceptor.MessageData) netceptor.FirewallResult { return netceptor.FirewallResultContinue }
+				}
+				return fns[0]
+			}
+			acceptA := parse(netceptor.FirewallRuleData{"action": "accept", "toservice": "s1"})
+			rejectB := parse(netceptor.FirewallRuleData{"action": "reject", "toservice": "s2"})
+			noop := func(*netceptor.MessageData) netceptor.FirewallResult { return netceptor.FirewallResultContinue }
+			nc := m.Nodes[dstNode].Net()
+			var once sync.Once
+			replaced := make(chan struct{})
+			probe := func(md *netceptor.MessageData) netceptor.FirewallResult {
+				if md.ToService == "s2" {
+					once.Do(func() {
+						go func() {
+							_ = nc.AddFirewallRules([]netceptor.FirewallRuleFunc{rejectB, noop, acceptA}, true)
+							close(replaced)
+						}()
+						// real time, not simulated: the reload either completes inside this window or waits for the lock
+						ts := syscall.Timespec{Nsec: 3_000_000}
+						_ = syscall.Nanosleep(&ts, nil)
+						w.Count("fault_reload_during_evaluation", 1)
+					})
+				}
+				return netceptor.FirewallResultContinue
+			}
+			_ = nc.AddFirewallRules([]netceptor.FirewallRuleFunc{probe, acceptA, rejectB}, true)
+			src := socks[c12Nodes[0]+"/ctl"]
+			dst := socks[dstNode+"/s2"]
+			_, werr := src.pc.WriteTo([]byte("reload-probe"), m.Nodes[c12Nodes[0]].Net().NewAddr(dstNode, "s2"))
+			time.Sleep(300 * time.Millisecond)
+			simnet.Quiesce()
+			select {
+			case <-replaced:
+			default:
+				res.Add("probe_reload_not_finished", 1)
+			}
+			delivered, notices := len(dst.got), 0
+			for more := true; more; {
+				select {
+				case n := <-src.unr:
+					if n.Problem == netceptor.ProblemRejected && n.ToService == "s2" {
+						notices++
+					}
+					simnet.Quiesce()
+				default:
+					more = false
+				}
+			}
+			if delivered != 0 || notices != 1 {
+				res.Violate("c12:decision|reload-during-evaluation", "a packet to a service that the old and the new rule list both reject was judged while the list was being replaced: delivered %d times, %d notices (write err %v)", delivered, notices, werr)
+			}
+		}
 		res.SimSeconds = w.Now().Seconds()
 		res.LogHash, res.LogLines = w.CanonicalLogHash()
 		res.Merge(w.Stats())
